@@ -7,5 +7,11 @@ META = {"explanation": "bounded functional: one concrete (small) shape per group
         "assumptions": ["mzd_echelonize_pluq (full reduction): shape / window / header-balance contract for all dimensions and ranks only (layer S); its algebra is not decided", 'recursive/large regimes (M4RI block loop beyond 3x5, PLUQ-based route) not reached in the quick tier']}
 
 
+def _carriers(tier):
+    # pivot search of the M4RI / PLE routes (mzd_find_pivot) under its observer contract
+    from checks import C17, carriers
+    return carriers.pick(C17.obs_groups(tier), "K.mzd_find_pivot.2x130.", prop="C02")
+
+
 def groups(tier, seed):
-    return with_canaries(alg.c02(tier)) + with_canaries(layer_s.ech_groups(["C02", "C09", "C11"]))
+    return with_canaries(alg.c02(tier)) + with_canaries(layer_s.ech_groups(["C02", "C09", "C11"])) + _carriers(tier)
